@@ -265,4 +265,111 @@ PROPS["C12"]["fast_harnesses"] = _h("utils_dispose_h.rs", ["dispose_chain_level"
 PROPS["C12"]["expected_obligations"] += ["C12.site.immediate_only_if_stamp_old_enough", "C12.site.recent_only_if_stamp_not_old_enough", "C02.cascade.child_stamp_is_newest_of_parent_link_child"]
 PROPS["C12"]["functions_under_contract"] += ["dispose_general_node (decision site)"]
 
-DEV = ("RG", "L2S", "L2W", "DISP")
+_EPOCH = ["c14_epoch_starting", "c14_epoch_wrapping_sub", "c14_epoch_is_pinned", "c14_epoch_pinned", "c14_epoch_unpinned", "c14_epoch_successor", "c14_epoch_value", "c14_epoch_twin"]
+PROPS["EP"] = dict(title="(dev) epoch", level="proof", modules=["epoch_h.rs"], contract_groups=["epoch"],
+                   kani=dict(quick=_h("epoch_h.rs", _EPOCH + ["c13_expiry_arith"])), trusted_base=[A_TOOLS])
+_L3A = ["c13_is_expired", "c13_is_expired_x", "c16_pin", "c16_unpin", "c16_repin", "c16_reactivate_after", "c14_repin_without_collect", "c15_handles", "c13_try_advance", "c14_try_advance_monotone"]
+PROPS["L3"] = dict(title="(dev) internal.rs L3 contracts", level="proof", modules=["epoch_h.rs", "internal_h.rs", "list_h.rs", "queue_h.rs"], contract_groups=["epoch", "expired"],
+                   kani=dict(quick=_h("internal_h.rs", _L3A)), trusted_base=[A_TOOLS], kani_flags=_FAST, harness_timeout=dict(quick=600, thorough=3600))
+_DEFD = ["c15_deferred_s0_a1", "c15_deferred_s1_a1", "c15_deferred_s8_a8", "c15_deferred_s24_a1", "c15_deferred_s24_a8", "c15_deferred_s25_a1", "c15_deferred_s28_a1",
+         "c15_deferred_s31_a1", "c15_deferred_s32_a8", "c15_deferred_s16_a16", "c15_deferred_s32_a32", "c15_deferred_s64_a8", "c15_deferred_owning_closure"]
+PROPS["DEFD"] = dict(title="(dev) deferred", level="proof", modules=["deferred_h.rs"], contract_groups=[],
+                   kani=dict(quick=_h("deferred_h.rs", _DEFD)), trusted_base=[A_TOOLS])
+_L3B = ["c15_bag", "c13_push_bag", "c13_collect", "c15_defer", "c15_flush", "c15_finalize"]
+PROPS["L3B"] = dict(title="(dev) internal.rs bags/defer/collect", level="proof", modules=["epoch_h.rs", "internal_h.rs", "list_h.rs", "queue_h.rs"], contract_groups=["epoch", "expired"],
+                   kani=dict(quick=_h("internal_h.rs", ["c13_collect", "c15_finalize"])), trusted_base=[A_TOOLS], kani_flags=_FAST)
+PROPS["Q"] = dict(title="(dev) queue", level="other", modules=["queue_h.rs"], contract_groups=[], kani=dict(quick=_h("queue_h.rs", ["c17_queue_sequential"])), trusted_base=[A_TOOLS], kani_flags=_FAST)
+PROPS["LST"] = dict(title="(dev) list", level="other", modules=["list_h.rs"], contract_groups=[], kani=dict(quick=_h("list_h.rs", ["c18_iter_sequential", "c18_insert_delete"])), trusted_base=[A_TOOLS], kani_flags=_FAST)
+_L3M = ["epoch_h.rs", "internal_h.rs", "list_h.rs", "queue_h.rs"]
+_L3G = ["epoch", "expired"]
+_INT = "internal_h.rs"
+PROPS["C13"] = dict(
+    title="deferred work never runs while a critical section active at deferral is active", level="other",
+    modules=_L3M, contract_groups=_L3G,
+    kani=dict(quick=_h("epoch_h.rs", ["c13_expiry_arith", "c14_epoch_wrapping_sub", "c14_epoch_twin"]) + _h(_INT, ["c13_is_expired", "c13_is_expired_x", "c16_pin", "c16_unpin", "c13_try_advance",
+              "c14_try_advance_monotone", "c13_push_bag", "c13_collect", "c15_defer", "c15_flush"])),
+    kani_flags=_FAST,
+    loops="pin's validation loop: environment advances the clock between its accesses (budget B), unwound B+4 with unwinding assertions on (stutter lemma); registry scan and bag loops: bounded (see bounded)",
+    bounded=["Global::collect: global queue of <= 2 sealed bags (queue abstracted by its C17 contract stub)", "Global::try_advance: registry of 2 hand-built participants", "bags of <= 2 functions"],
+    functions_under_contract=["SealedBag::is_expired", "Epoch::wrapping_sub", "Global::{push_bag,collect,try_advance}", "Local::{pin,unpin,defer,flush,schedule_collection}"],
+    expected_obligations=["C13.expiry.wrapping_sub_ge_3_iff_three_advances", "C13.is_expired.post", "C13.pin.validated_against_global_epoch_after_publication", "C13.unpin.clears_pinned_bit_only_for_outermost_guard",
+                          "C13.advance.refuses_while_a_pinned_participant_lags", "C13.push_bag.sealed_with_global_epoch_read_at_sealing", "C13.collect.first_bag_runs_iff_expired",
+                          "C13.collect.fifo_stops_at_first_unexpired_bag", "C13.defer.runs_nothing", "C13.unpin.collects_while_still_pinned"],
+    trusted_base=[A_TOOLS, A_SC + " - fence placement and memory orderings (the SeqCst fence in pin/try_advance/push_bag) are invisible to the verifier", "A-EBR-THM: the classical 3-epoch theorem (pinned participants lag the clock by <= 1, so age >= 3 implies every critical section active at sealing has ended) is NOT decided here"],
+    assumptions=[A_SC, "A-EBR-THM (composition)", "bounded configurations as listed"],
+    explanation="The schedule-quantified statement is the classical EBR safety theorem; no per-function contract composes it. Decided here, for all inputs of the stated configurations, are the facts it consumes: is_expired <=> >= 3 clock steps; "
+                "a bag is sealed with the global epoch read when it is sealed; collect runs a bag's functions only if is_expired held for it, FIFO, stopping at the first unexpired one; try_advance refuses while a pinned participant lags; "
+                "pin returns only after validating its published epoch against a later load of the clock; unpin clears the pinned bit only for the outermost guard. A change weakening any of them fails a named obligation.",
+)
+PROPS["C14"] = dict(
+    title="epoch clock is monotone; a pinned participant sees at most one advance", level="proof",
+    modules=_L3M, contract_groups=_L3G,
+    kani=dict(quick=_h("epoch_h.rs", _EPOCH) + _h(_INT, ["c16_pin", "c14_repin_without_collect", "c13_try_advance", "c14_try_advance_monotone", "c16_repin", "c16_unpin", "c15_flush", "c13_push_bag"])),
+    kani_flags=_FAST,
+    loops="pin's validation loop by the stutter lemma (budget B); the registry scan inside try_advance: registry of 2 hand-built participants (bounded, see bounded)",
+    bounded=["Global::try_advance: registry of 2 hand-built participants (the scan itself is C18's sequential contract)"],
+    functions_under_contract=["Epoch::{starting,wrapping_sub,is_pinned,pinned,unpinned,successor,value}", "AtomicEpoch::{new,load,store,compare_exchange}", "Global::try_advance", "Local::{pin,repin,repin_without_collect,unpin,schedule_collection}"],
+    expected_obligations=["C14.epoch.successor.post", "C14.clock.successor_is_single_step_forward", "C14.advance.single_step", "C14.advance.monotone_single_step", "C14.advance.only_to_successor_of_callers_epoch",
+                          "C14.advance.pinned_participant_sees_at_most_one_advance", "C14.pin.announced_epoch_is_current_at_return", "C14.pin.never_moves_the_clock", "C14.repin_wc.announces_global_epoch_just_read_pinned",
+                          "C14.unpin.never_moves_the_clock", "C13.push_bag.runs_nothing_and_never_moves_the_clock"],
+    trusted_base=[A_TOOLS, A_SC, A_RG + " - here: invariant J (while a validated participant stays pinned at e the clock is e or e+1) is assumed of the environment and shown preserved by every function that writes the clock (try_advance is the only one)"],
+    assumptions=[A_SC, A_RG, "multi-advancer schedules are covered by the R/G step (c14_try_advance_monotone), not enumerated"],
+)
+PROPS["C15"] = dict(
+    title="every deferred function runs exactly once, even across thread exit", level="proof",
+    modules=_L3M + ["deferred_h.rs"], contract_groups=_L3G,
+    kani=dict(quick=_h("deferred_h.rs", _DEFD) + _h(_INT, ["c15_bag", "c15_defer", "c15_flush", "c15_finalize", "c13_push_bag", "c13_collect", "c16_unpin", "c15_handles", "c15_guard_defer"])),
+    kani_flags=_FAST,
+    loops="Bag::drop drains <= 3 stored functions; Local::defer's retry loop; collect's trial loop with <= 2 bags: all unwound with unwinding assertions on (complete for the bounded sizes)",
+    bounded=["Bag capacity 2-3 instead of MAX_OBJECTS = 64 (try_push / Drop / defer / flush are otherwise symbolic in the fill level)", "global queue of <= 2 sealed bags", "closure size/alignment classes enumerated: sizes {0,1,8,24,25,28,31,32,64} x aligns {1,8,16,32}"],
+    functions_under_contract=["Deferred::{new,call}", "Bag::{new,is_empty,try_push,seal,drop}", "Guard::{defer_unchecked,flush,incr_manual_collection}", "Local::{defer,flush,push_to_global,schedule_collection,incr_advance,incr_manual_collection,acquire_handle,release_handle,finalize,unpin}", "Global::{push_bag,collect}"],
+    expected_obligations=["C15.deferred.call_runs_exactly_once", "C15.deferred.captured_data_intact", "C15.deferred.captures_dropped_exactly_once", "C15.bag.drop_runs_each_once_in_order", "C15.bag.try_push_err_returns_the_same_function",
+                          "C15.defer.function_is_last_in_bag_exactly_once", "C15.defer.full_bag_goes_to_global_queue_intact", "C15.flush.moves_local_bag_to_global_queue_iff_nonempty", "C15.push_bag.content_moves_intact",
+                          "C15.finalize.hands_local_bag_to_global_queue", "C15.finalize.releases_exactly_one_collector_reference", "C15.collect.each_function_at_most_once", "C15.unpin.runs_scheduled_collection_from_outermost_unpin",
+                          "C15.guard_defer.function_runs_exactly_once_with_its_captures"],
+    trusted_base=[A_TOOLS, "liveness ('after finitely many rounds') and real thread exit (TLS destructors) are outside the family: what is proved is the conservation invariant - every deferred function is in exactly one of {local bag, a sealed bag in the global queue, executed} after each operation"],
+    assumptions=["'eventually' is not decided (a change that only stops progress - e.g. never scheduling a collection when the local bag is empty - is not a contract violation of any single function and is NOT detected)", "Queue::drop running what is left at collector teardown is not covered"],
+)
+PROPS["C16"] = dict(
+    title="nested guards and reactivation keep the thread pinned exactly as documented", level="proof",
+    modules=_L3M, contract_groups=_L3G,
+    kani=dict(quick=_h(_INT, ["c16_pin", "c16_unpin", "c16_repin", "c16_reactivate_after", "c15_handles", "c15_finalize", "c16_guard_drop", "c14_repin_without_collect", "c15_flush"])),
+    kani_flags=_FAST,
+    loops="unbounded nesting by the data-structure invariant InvL (guard_count > 0 <=> pinned bit) from a symbolic guard_count/handle_count; arbitrary depth and order follow by induction on operations",
+    functions_under_contract=["Local::{pin,unpin,repin,repin_without_collect,acquire_handle,release_handle,finalize}", "Guard::{reactivate,reactivate_after,drop}"],
+    expected_obligations=["C16.pin.counts_one_more_guard", "C16.pin.nested_keeps_announced_epoch", "C16.pin.other_participant_untouched", "C16.unpin.counts_one_guard_less", "C13.unpin.clears_pinned_bit_only_for_outermost_guard",
+                          "C16.reactivate.unpins_only_when_sole_guard", "C16.reactivate.pinned_again_afterwards", "C16.reactivate.nested_keeps_announced_epoch", "C16.reactivate_after.f_runs_unpinned_only_when_sole_guard",
+                          "C16.reactivate_after.pinned_again_afterwards", "C16.guard_drop.unpins_its_participant_exactly_once", "C13.schedule_collection.keeps_announced_epoch_outside_collection"],
+    trusted_base=[A_TOOLS, "the panic path of reactivate_after ('also when the closure panics') is NOT covered: Kani aborts on panic and does not model unwinding; scopeguard is trusted"],
+    assumptions=["destructors that run during collection may create guards: collect is abstracted by its contract (it does not touch this participant's counters)"],
+)
+PROPS["C17"] = dict(
+    title="internal garbage queue: sequential FIFO / predicate contract", level="other",
+    modules=["queue_h.rs"], contract_groups=[],
+    kani=dict(quick=_h("queue_h.rs", ["c17_queue_sequential"])), kani_flags=_FAST,
+    loops="CAS-retry loops of push/try_pop/try_pop_if never retry sequentially; unwound 6 with unwinding assertions on",
+    bounded=["queue length <= 3, then two pops of either kind and one more push; single thread"],
+    functions_under_contract=["Queue::{new,push,push_internal,try_pop,pop_internal,try_pop_if,pop_if_internal}"],
+    expected_obligations=["C17.push.appends_at_the_back", "C17.pop.returns_oldest_element_fifo", "C17.pop.removes_exactly_the_head", "C17.pop_if.head_failing_predicate_stays", "C17.pop_if.predicate_held_for_that_very_element",
+                          "C17.pop.retires_old_sentinel_exactly_once", "C17.pop.empty_queue_gives_none", "C17.pop.no_node_retired_twice"],
+    trusted_base=[A_TOOLS, "linearizability under concurrency (Michael-Scott; Doherty et al.) is NOT decided: only the sequential contract every linearization must satisfy, on the real code, for bounded lengths"],
+    assumptions=["bounded and sequential; labelled bounded, not counted as a proof of the property"],
+    explanation="BOUNDED sequential contract only: abstract view = payloads reachable from head.next; push appends, try_pop removes the head FIFO, try_pop_if removes the head only if the predicate held for that very element and evaluates it on it, "
+                "None only if empty or the predicate failed, a popped node is retired exactly once. The concurrent (schedule-quantified) half of the property is not within reach of per-function contracts on this code and is not claimed.",
+)
+PROPS["C18"] = dict(
+    title="epoch advancement never overlooks a registered participant: sequential traversal contract", level="other",
+    modules=_L3M, contract_groups=_L3G,
+    kani=dict(quick=_h("list_h.rs", ["c18_iter_sequential", "c18_insert_delete"]) + _h(_INT, ["c13_try_advance", "c15_finalize"])), kani_flags=_FAST,
+    loops="Iter::next's unlink loop and List::insert's CAS loop: unwound with unwinding assertions on (complete for <= 3 entries)",
+    bounded=["registry of <= 3 entries with symbolic delete marks; single thread"],
+    functions_under_contract=["List::{new,insert,iter}", "Entry::delete", "Iter::next", "Global::try_advance (visits every participant)", "Local::finalize (marks its entry)"],
+    expected_obligations=["C18.iter.visits_every_registered_unremoved_entry_once", "C18.iter.removed_entries_unlinked_and_finalized_exactly_once", "C18.iter.list_keeps_exactly_the_unremoved_entries",
+                          "C18.insert.new_entry_is_reachable_from_head", "C18.insert.keeps_every_existing_entry_reachable", "C18.delete.sets_only_the_mark_of_this_entry", "C18.finalize.marks_registry_entry_deleted",
+                          "C13.advance.refuses_while_a_pinned_participant_lags"],
+    trusted_base=[A_TOOLS, "concurrent insert/delete during a traversal (the schedule-quantified half, incl. the Stalled path) is NOT decided"],
+    assumptions=["bounded and sequential; labelled bounded, not counted as a proof of the property"],
+    explanation="BOUNDED sequential contract only: a traversal that ends without Stalled returned every unmarked entry exactly once in order; marked entries are unlinked and finalized exactly once; insert makes the new entry reachable and keeps all others; "
+                "delete sets only the mark; try_advance consults every registered participant. Concurrent registration/removal during traversal is not claimed.",
+)
+DEV = ("RG", "L2S", "L2W", "DISP", "EP", "L3", "DEFD", "L3B", "Q", "LST")
